@@ -10,6 +10,11 @@ package v120
 //@ effects UpdateVestingAccountTraces trace.write
 //@ effects ModifyVestingAccountsState auth.setaccount
 //@ effects upgradeVestingAccounnt auth.setaccount
+//@ // wiring of the upgrade handler: the two steps that read the vesting store through the new (version 3) layout run only after
+//@ // the store migrations of the same invocation have run; before them that layout is empty and both steps would silently do
+//@ // nothing (no trace would be marked genesis-derived, C17; the validators pool would be left unsplit, C16)
+//@ callorder C16,C17 CreateUpgradeHandler RunMigrations UpdateVestingAccountTraces
+//@ callorder C16 CreateUpgradeHandler RunMigrations ModifyVestingPoolsState
 
 //@ // ---- C16: the validators-pool split moves locked value between pool records, it never creates or destroys any ----
 //@ pred poolSound(p) = !p.InitiallyLocked.IsNil() && !p.Withdrawn.IsNil() && !p.Sent.IsNil() && p.Withdrawn >= 0 && p.Sent >= 0 && p.Withdrawn + p.Sent <= p.InitiallyLocked
